@@ -93,6 +93,12 @@ char *_ZNSt6vectorIcSaIcEE2atEm(struct vec_char *this, unsigned long n)
 void _ZNSt6vectorIcSaIcEED1Ev(struct vec_char *this) { LIVE(this, 24, "std::vector<char>::~vector"); }
 void _ZNSt6vectorIcSaIcEEC1ERKS1_(struct vec_char *this, const struct vec_char *o) { LIVE((void *)o, 24, "std::vector<char>(const vector&)"); CW(this, 0) = CW(o, 0); CW(this, 1) = CW(o, 1); CW(this, 2) = CW(o, 2); }
 
+/* data(): a buffer of exactly size() bytes (reads beyond it are caught by the bounds checks) */
+const char *_ZNKSt7__cxx1112basic_stringIcSt11char_traitsIcESaIcEE4dataEv(const struct std_string *this)
+{ LIVE((void *)this, 32, "std::string::data"); __CPROVER_assume(SZ(this) <= 0xffffffful); return (const char *)__CPROVER_allocate(SZ(this) + 1, 0); }
+char *_ZNSt6vectorIcSaIcEE4dataEv(struct vec_char *this)
+{ LIVE(this, 24, "std::vector<char>::data"); __CPROVER_assume(SZ(this) <= 0xffffffful); return (char *)__CPROVER_allocate(SZ(this), 0); }
+
 /* ---------------- std::vector<bloc::Value> (the storage of a table) ---------------- */
 /* g_tab_elem (contracts/iface.h) stands for every element of the table */
 unsigned long _ZNKSt6vectorIN4bloc5ValueESaIS1_EE4sizeEv(const struct vec_Value *this) { LIVE((void *)this, 24, "std::vector<Value>::size"); return SZ(this); }
